@@ -47,6 +47,10 @@ MAP = [
     ("guessed-weights helper of MinFlowDecompCycles must get the additional start/end nodes", "C05", "MinFlowDecompCycles(flow_attr_origin='node', additional_starts/ends, optimize_with_guessed_weights=True) raised ValueError on a graph without natural source/sink (ring): the helper kFlowDecompCycles was built without the additional start/end nodes (also C11)"),
     ("elements_to_ignore_percentile must be computed over the weighted elements only", "C11", "kMinPathErrorCycles node mode: the percentile was taken over all edges of the node-expanded graph incl. the connecting edges that inherit the original edges' attributes; node-weighted graphs whose edges carry an attribute of the same name got other nodes ignored (up to 'Failed to add columns')"),
     ("node-covering path covers must take the node lengths into the node expansion", "C11", "kPathCover/MinPathCover(cover_type='node') with subpath_constraints_coverage_length counted the connecting edges of an edge-list constraint with length 1 (NodeExpandedDiGraph built without node_length_attr): differs from the explicitly expanded instance (also C10)"),
+    ("repeated solve() of MinErrorFlow with few_flow_values_epsilon must start from the first phase", "C18", "MinErrorFlow(few_flow_values_epsilon=...): a second solve() optimised the leftover second-phase model and returned False / infeasible after the first returned True (also C16)"),
+    ("add_variables must honour scalar bounds of any real number type", "C12", "SolverWrapper.add_variables silently replaced a scalar lb/ub of type numpy.int64 / numpy.float32 / Fraction by the default bounds 0 and 1; MinErrorFlow on numpy-typed weights returned wrong flows or 'infeasible' (also C16)"),
+    ("abstract model classes must not share one default solve_statistics", "C18", "AbstractPathModelDAG / AbstractWalkModelDiGraph used a mutable default solve_statistics={} that every model built without its own dict shared and overwrote (user subclasses per docs/abstract-path-model.md)"),
+    ("with solution_weights_superset the error and slack bounds must cover the sum", "C07", "kLeastAbsErrors / kMinPathError with solution_weights_superset bounded errors and slacks by max(k*max flow, max(superset)): non-optimal objective (30 instead of 24 on the hourglass instance) or false infeasibility when the given weights pile up on one edge (also C08, C10)"),
     ("MinErrorFlow with few_flow_values_epsilon on node-weighted", "C16", "MinErrorFlow(flow_attr_origin='node', few_flow_values_epsilon>0) raised KeyError"),
 ]
 def main():
